@@ -356,6 +356,13 @@ theorem murmur64_full_bridge (pre init : List Stmt) (cond : Cond) (post body aft
 
 /-! ### hash.HashAddr: `switch len(src)` -/
 
+theorem len4_cases (src : List Nat) (h : src.length = 4) : ∃ a b c d, src = [a, b, c, d] := by
+  match src, h with
+  | [a, b, c, d], _ => exact ⟨a, b, c, d, rfl⟩
+theorem len8_cases (src : List Nat) (h : src.length = 8) : ∃ a b c d e f g i, src = [a, b, c, d, e, f, g, i] := by
+  match src, h with
+  | [a, b, c, d, e, f, g, i], _ => exact ⟨a, b, c, d, e, f, g, i, rfl⟩
+
 theorem hashAddr_4 (a b c d : Nat) : Hash.hashAddr [a, b, c, d]
     = Hash.wrap64 (Hash.wrap32 (a * 16777216 + b * 65536 + c * 256 + d) * Hash.wrap32 (a * 16777216 + b * 65536 + c * 256 + d)) := rfl
 theorem hashAddr_8 (a b c d e f g h : Nat) :
@@ -384,7 +391,7 @@ theorem hashAddr_bridge (body : List Stmt) (hb : normStmts body = normStmts GoMo
   simp only [GoModel.fn_HashAddr, runRet, eval, evalC, upd, hlen, c4, c8, if_true, Nat.reduceEqDiff, if_false]
   by_cases l4 : src.length = 4
   · simp only [l4, decide_true, cond_true, if_true, retVal, h1, evalOp]
-    rcases src with _ | ⟨a, _ | ⟨b, _ | ⟨c, _ | ⟨d, _ | ⟨e, r⟩⟩⟩⟩⟩ <;> simp at l4
+    obtain ⟨a, b, c, d, rfl⟩ := len4_cases src l4
     rw [hashAddr_4]
     simp only [Hash.toInt, Option.getD_some]
     have hr : ∀ v : Int, norm .i64 (Hash.wrap32 v) = Hash.wrap32 v := by
@@ -394,7 +401,7 @@ theorem hashAddr_bridge (body : List Stmt) (hb : normStmts body = normStmts GoMo
   · simp only [l4, decide_false, cond_false]
     by_cases l8 : src.length = 8
     · simp only [l8, decide_true, cond_true, retVal, h3]
-      rcases src with _ | ⟨a, _ | ⟨b, _ | ⟨c, _ | ⟨d, _ | ⟨e, _ | ⟨f, _ | ⟨g, _ | ⟨h, _ | ⟨i, r⟩⟩⟩⟩⟩⟩⟩⟩⟩ <;> simp at l8
+      obtain ⟨a, b, c, d, e, f, g, i, rfl⟩ := len8_cases src l8
       rw [hashAddr_8]
     · simp only [l8, decide_false, cond_false, retVal, h4]
       have hh : norm .i64 (Hash.hash src) = Hash.hash src := by
